@@ -213,6 +213,23 @@ def s5(ctx, rep):
     ds = local_defs(t, tidv) if tidv else []
     ok = ok and len(ds) == 1 and isinstance(ds[0], tuple) and fn_name(ds[0][1]) == "print_best_metric_found" and ds[0][2] == 0
     rep.put(ok, "S5", "taint", "Tuner.best_config looks the configuration up by the trial id print_best_metric_found returned", t, None, "")
+    # ... and ranks by the metric that was asked for: name and mode both come from one metric_name_mode(...) call for the requested
+    # metric, and print_best_metric_found (which ranks by the FIRST name it is given) is given that name alone, with that mode
+    from ..engine import deref
+    nm = [x for x in walk_shallow(t.node) if isinstance(x, ast.Assign) and isinstance(x.value, ast.Call) and fn_name(x.value) == "metric_name_mode"
+          and isinstance(x.targets[0], ast.Tuple) and len(x.targets[0].elts) == 2]
+    pb = [x for x in walk_shallow(t.node) if isinstance(x, ast.Call) and fn_name(x) == "print_best_metric_found"]
+    okm = len(nm) == 1 and len(pb) == 1
+    if okm:
+        namev, modev = U(nm[0].targets[0].elts[0]), U(nm[0].targets[0].elts[1])
+        req = kwarg(nm[0].value, "metric", 2)
+        mn = deref(t, kwarg(pb[0], "metric_names", 1)) if kwarg(pb[0], "metric_names", 1) is not None else None
+        md = kwarg(pb[0], "mode", 2)
+        okm = req is not None and U(req) in t.params and isinstance(mn, (ast.List, ast.Tuple)) and len(mn.elts) >= 1 and U(mn.elts[0]) == namev \
+            and md is not None and U(md) == modev
+    rep.put(okm, "S5", "agreement", "Tuner.best_config ranks by the requested metric: print_best_metric_found gets [that name] and its mode", t, pb[0] if pb else None, "",
+            "print_best_metric_found ranks by the first name of the list it is given: handed anything but the requested metric's name first (e.g. all metric "
+            "names of the scheduler) the trial returned is the best one for another metric, under the requested metric's mode")
 
 
 def s5b(ctx, rep):
